@@ -156,7 +156,7 @@ def _race(cmds, text, timeout_s, tmpdir):
                 pass
 
 
-def solve_text(text_full, text_qf, timeout_s, tmpdir, want_model=False, race=False, first=None):
+def solve_text(text_full, text_qf, timeout_s, tmpdir, want_model=False, race=False, first=None, only_first=False):
     """-> (verdict, backend, seconds, raw).  `first`: name of the portfolio member that discharged this obligation in an earlier
     run (a hint read from contracts/solver_hints.json): it is tried first; the verdict does not depend on the order."""
     t0 = time.time()
@@ -180,6 +180,8 @@ def solve_text(text_full, text_qf, timeout_s, tmpdir, want_model=False, race=Fal
     members = _portfolio(timeout_s)
     if first and first != "z3" and any(n == first for n, _ in members):
         members = [m for m in members if m[0] == first] + [m for m in members if m[0] != first]
+    if only_first:
+        members = members[:1]
     for name, cmd in members:
         txt = text_full + ("\n(get-model)\n" if want_model else "")
         r, out, dt = _run(cmd, txt, timeout_s, tmpdir)
@@ -190,7 +192,7 @@ def solve_text(text_full, text_qf, timeout_s, tmpdir, want_model=False, race=Fal
             # secondary configurations on quantified / lambda terms is treated as undecided
             return "sat", name, time.time() - t0, out[:6000]
         notes.append(f"{name}: {r} {out.strip()[:120] if r in ('error',) else ''}")
-    if os.path.exists(CVC5):
+    if os.path.exists(CVC5) and not only_first:
         r, out, dt = _run([CVC5, "--strings-exp", f"--tlimit={int(timeout_s) * 1000}"], "(set-logic ALL)\n" + text_full, timeout_s, tmpdir)
         if r == "unsat":
             return "unsat", "cvc5", time.time() - t0, None
@@ -198,7 +200,7 @@ def solve_text(text_full, text_qf, timeout_s, tmpdir, want_model=False, race=Fal
     return "unknown", "portfolio", time.time() - t0, "; ".join(notes)
 
 
-def discharge(obligations, probes=None, timeout_ms=10000, jobs=None, hints=None, race=None):
+def discharge(obligations, probes=None, timeout_ms=10000, jobs=None, hints=None, race=None, quick_only=False):
     """sets .verdict ('discharged'|'refuted'|'undecided'), .backend, .time, .raw on every obligation.
 
     Every obligation is attempted as a whole by the portfolio; obligations whose hypotheses contain joined paths
@@ -226,8 +228,13 @@ def discharge(obligations, probes=None, timeout_ms=10000, jobs=None, hints=None,
             qf = to_smt2(qf_pc, ob.goal) if len(qf_pc) != len(ob.pc) else None
             whole.append((i, full, qf))
             ob.smt2_size = len(full)
-            if not ob.expect_refuted:
-                cases = _case_split(ob.pc, max_cases=96)
+            if not ob.expect_refuted and not quick_only:
+                sp = getattr(ob, "splits", None)
+                if sp:
+                    # the contract's own case analysis (exhaustive: the last case is "none of the conditions")
+                    cases = [list(ob.pc) + [c] for c in sp] + [list(ob.pc) + [z3.Not(z3.Or(list(sp)))]]
+                else:
+                    cases = _case_split(ob.pc, max_cases=96)
                 if cases and len(cases) >= 2:
                     ncases[i] = len(cases)
                     for k, pc_k in enumerate(cases):
@@ -243,7 +250,7 @@ def discharge(obligations, probes=None, timeout_ms=10000, jobs=None, hints=None,
             if obligations[i].expect_refuted:
                 r, out, dt = _run([Z3NEW, "-T:5"], full, 5, tmpdir)
                 return ("whole", i, None, ({"sat": "sat", "unsat": "unsat"}.get(r, "unknown"), "z3", dt, None))
-            res = solve_text(full, qf, timeout_s, tmpdir, want_model=True, race=race, first=(hints or {}).get(obligations[i].id))
+            res = solve_text(full, qf, timeout_s, tmpdir, want_model=True, race=race and not quick_only, first=(hints or {}).get(obligations[i].id), only_first=quick_only)
             if res[0] in ("unsat", "sat"):
                 decided.setdefault(i, res[0])
             return ("whole", i, None, res)
